@@ -730,15 +730,32 @@ static bool examine(vh::Reporter& rep, Rng& rng, Monitor& m, const std::vector<c
         if (converted) section(reader, false, [&] {
             ExtESmry x(esmry, false);
             opened();
-            const unsigned how = (unsigned)rng.below(3);
-            const auto sel = pickKeys(rng, own, o.allKeys);
+            const unsigned how = (unsigned)rng.below(7);
+            auto sel = pickKeys(rng, own, o.allKeys);
+            static const char* HOW[] = {"loadData()", "loadData(list)", "lazy get()", "two overlapping lists", "dates() or get() then loadData(list)", "list naming a key twice", "get() then loadData()"};
             if (how == 0) x.loadData();
             else if (how == 1) x.loadData(sel);
-            rep.cover("ExtESmry_load", how == 0 ? "loadData()" : how == 1 ? "loadData(list)" : "lazy get()");
+            else if (how == 3) {
+                std::vector<std::string> a(sel.begin(), sel.begin() + sel.size() / 2), b(sel.begin() + sel.size() / 3, sel.end());
+                x.loadData(a);
+                x.loadData(b);
+            } else if (how == 4) {
+                // something is loaded first and a bulk load then names it again ahead of other keys
+                if (rng.chance(0.5)) (void)x.dates(); else (void)x.get(sel[rng.below(sel.size())]);
+                x.loadData(sel);
+            } else if (how == 5) {
+                auto twice = sel;
+                for (int d = 1 + (int)rng.below(3); d > 0; --d) twice.insert(twice.begin() + rng.below(twice.size() + 1), sel[rng.below(sel.size())]);
+                x.loadData(twice);
+            } else if (how == 6) {
+                (void)x.get(sel[rng.below(sel.size())]);
+                x.loadData();
+            }
+            rep.cover("ExtESmry_load", HOW[how]);
             if (!checkFrame(m, reader, x, own)) return;
             if (m.ministepIdsKnown && x.all_steps_available() != own.allStepsAvailable)
                 m.viol("ministep-ids:" + reader + m.ctx, reader + ": all_steps_available() = " + std::to_string(!own.allStepsAvailable) + " but the MINISTEP ids written " + (own.allStepsAvailable ? "are consecutive" : "have gaps"), "");
-            m.series(reader, own, how == 0 ? own.keys : sel, [&](const std::string& k) -> const std::vector<float>& { return x.get(k); }, false);
+            m.series(reader, own, (how == 0 || how == 6) ? own.keys : sel, [&](const std::string& k) -> const std::vector<float>& { return x.get(k); }, false);
             // the file itself: RSTEP flags and TSTEP ids
             EclFile f(esmry);
             f.loadData();
@@ -781,9 +798,14 @@ static bool examine(vh::Reporter& rep, Rng& rng, Monitor& m, const std::vector<c
             ESmry e(top.smspecPath(), withBase);
             opened();
             const auto sel = pickKeys(rng, c, o.allKeys);
-            const unsigned how = (unsigned)rng.below(4);
-            rep.cover("ESmry_seek", how == 0 ? "one list" : how == 1 ? "two lists" : how == 2 ? "lazy get()" : "list then loadData()");
+            const unsigned how = (unsigned)rng.below(5);
+            rep.cover("ESmry_seek", how == 0 ? "one list" : how == 1 ? "two lists" : how == 2 ? "lazy get()" : how == 3 ? "list then loadData()" : "list naming a key twice");
             if (how == 0 || how == 3) e.loadData(sel);
+            else if (how == 4) {
+                auto twice = sel;
+                for (int d = 1 + (int)rng.below(3); d > 0; --d) twice.insert(twice.begin() + rng.below(twice.size() + 1), sel[rng.below(sel.size())]);
+                e.loadData(twice);
+            }
             else if (how == 1) {
                 std::vector<std::string> a(sel.begin(), sel.begin() + sel.size() / 2), b(sel.begin() + sel.size() / 3, sel.end());   // overlapping
                 e.loadData(a);
